@@ -112,6 +112,7 @@ type gCall struct {
 	ValS  string `json:"value_other,omitempty"`
 	Count int    `json:"count"`
 	ErrID int64  `json:"error_id"` // 0 nil, -1 an error no execution produced
+	ErrS  string `json:"foreign_error,omitempty"`
 	Ran   bool   `json:"ran_fn"`
 	RanN  int    `json:"times_ran_fn"`
 	// Parked: a goroutine dump taken while the leader was held showed this caller inside
@@ -205,6 +206,7 @@ func (h *gHist) do(g *singleflight.Group, c *gCall, hold <-chan struct{}, starte
 		c.ErrID = e.id
 	default:
 		c.ErrID = -1
+		c.ErrS = err.Error()
 	}
 }
 
@@ -347,6 +349,76 @@ func runSteered(r *rand.Rand, idx int) *gHist {
 	return h
 }
 
+// runSlowGeneric is the slow-leader slice: per key the leader is held inside fn for `hold` of REAL
+// time (seconds), the followers are launched as soon as the leader is in fn (their joins are
+// confirmed by a goroutine dump), late-comers follow after the release. The hold only creates the
+// opportunity (e.g. for a waiter that gives up); the verdict is the unchanged history oracle.
+func runSlowGeneric(r *rand.Rand, idx int, hold time.Duration) *gHist {
+	h := &gHist{Stream: "c16-slow-generic", Index: idx, Mode: "slow-leader", Procs: runtime.GOMAXPROCS(0), Confirm: true}
+	h.ValKind = valKinds[idx%len(valKinds)]
+	h.K = 1 + r.Intn(2)
+	h.Plan = fmt.Sprintf("leader held %v", hold)
+	perm := r.Perm(len(keyPool))
+	type keyPlan struct{ leader, followers, late []*gCall }
+	plans := make([]keyPlan, h.K)
+	for k := range plans {
+		isErr := r.Intn(3) == 0
+		mk := func(role string, wave int, e bool) *gCall {
+			c := &gCall{Idx: len(h.Calls), Key: keyPool[perm[k]], Role: role, Wave: wave, errExec: e}
+			h.Calls = append(h.Calls, c)
+			return c
+		}
+		plans[k].leader = []*gCall{mk("leader", 0, isErr)}
+		for f := 1 + r.Intn(4); f > 0; f-- {
+			plans[k].followers = append(plans[k].followers, mk("follower", 0, isErr))
+		}
+		for l := 1 + r.Intn(2); l > 0; l-- {
+			plans[k].late = append(plans[k].late, mk("late-leader", 1, r.Intn(3) == 0))
+		}
+	}
+	h.N = len(h.Calls)
+	g := &singleflight.Group{}
+	var keysWG sync.WaitGroup
+	for k := range plans {
+		keysWG.Add(1)
+		go func(pl keyPlan) {
+			defer keysWG.Done()
+			holdCh := make(chan struct{})
+			var all sync.WaitGroup
+			launch := func(c *gCall, hc <-chan struct{}, started chan struct{}) {
+				all.Add(1)
+				go func() { defer all.Done(); h.do(g, c, hc, started) }()
+			}
+			started := make(chan struct{})
+			launch(pl.leader[0], holdCh, started)
+			<-started
+			want := map[int64]bool{}
+			for _, c := range pl.followers {
+				launch(c, holdCh, nil)
+			}
+			for _, c := range pl.followers {
+				for atomic.LoadInt32(&c.stamped) == 0 {
+					runtime.Gosched()
+				}
+				want[c.gid] = true
+			}
+			got := waitParked(want, 100*time.Millisecond)
+			for _, c := range pl.followers {
+				c.Parked = got[c.gid]
+			}
+			time.Sleep(hold)
+			close(holdCh)
+			all.Wait()
+			for _, c := range pl.late {
+				launch(c, nil, nil)
+				all.Wait()
+			}
+		}(plans[k])
+	}
+	keysWG.Wait()
+	return h
+}
+
 // runStress executes one unsteered history: G goroutines, R calls each, released together.
 func runStress(r *rand.Rand, idx, procs int) *gHist {
 	h := &gHist{Stream: "c16-stress", Index: idx, Mode: "stress", Procs: procs}
@@ -472,7 +544,7 @@ func judgeGeneric(h *gHist) ([]finding, gStats) {
 				add("follower-count-nonzero", fmt.Sprintf("call %d did not run fn but was told count=%d", c.Idx, c.Count))
 			}
 			if c.ErrID == -1 {
-				add("spurious-error", fmt.Sprintf("call %d got an error no execution produced", c.Idx))
+				add("joined-caller-got-result-of-no-execution", fmt.Sprintf("call %d on key %q did not run fn and got error %q, which no execution of fn returned", c.Idx, c.Key, c.ErrS))
 				continue
 			}
 			if c.ErrID > 0 {
@@ -525,7 +597,11 @@ func judgeGeneric(h *gHist) ([]finding, gStats) {
 			continue
 		}
 		if c.Val == 0 {
-			add("caller-received-no-execution-result", fmt.Sprintf("call %d on key %q got %s instead of the id of an execution", c.Idx, c.Key, c.ValS))
+			if !c.Ran {
+				add("joined-caller-got-result-of-no-execution", fmt.Sprintf("call %d on key %q did not run fn and got value %s, error %q (error id %d): not the result of any execution of fn", c.Idx, c.Key, c.ValS, c.ErrS, c.ErrID))
+			} else {
+				add("caller-received-no-execution-result", fmt.Sprintf("call %d on key %q got %s instead of the id of an execution", c.Idx, c.Key, c.ValS))
+			}
 			continue
 		}
 		e := byID[c.Val]
@@ -616,12 +692,16 @@ func judgeGeneric(h *gHist) ([]finding, gStats) {
 
 // withWatchdog runs f; a stalled run is reported as inconclusive (never as a violation).
 func withWatchdog(rep *vh.Report, what string, f func()) bool {
+	return withWatchdogFor(rep, what, 20*time.Second, f)
+}
+
+func withWatchdogFor(rep *vh.Report, what string, max time.Duration, f func()) bool {
 	done := make(chan struct{})
 	go func() { defer close(done); f() }()
 	select {
 	case <-done:
 		return true
-	case <-time.After(20 * time.Second):
+	case <-time.After(max):
 		rep.Inconclusive("watchdog: " + what + " stalled")
 		return false
 	}
@@ -818,6 +898,7 @@ type wHist struct {
 	Svc      string            `json:"service"`
 	Class    string            `json:"class"`
 	Probe    string            `json:"probe,omitempty"`
+	HeldFor  string            `json:"leader_held_for,omitempty"`
 	Outcomes map[string]string `json:"scripted_outcomes"`
 	Calls    []*wCall          `json:"calls"`
 	Execs    []*wExec          `json:"executions"`
@@ -1171,6 +1252,8 @@ type wGroupSpec struct {
 }
 
 type wSpec struct {
+	stream            string        // "" = c16-wrapper
+	holdFor           time.Duration // slow-leader slice: real time the leader stays inside the inner provider
 	svc, class, probe string
 	groups            []wGroupSpec
 	late              int
@@ -1449,7 +1532,10 @@ func permuted(r *rand.Rand, g []string) []string {
 
 // runWrapper executes one scenario against a fresh wrapper + inner fake.
 func runWrapper(sp wSpec, r *rand.Rand, idx int) (*wHist, bool) {
-	h := &wHist{Stream: "c16-wrapper", Index: idx, Svc: sp.svc, Class: sp.class, Probe: sp.probe, Outcomes: map[string]string{}, hold: make(chan struct{})}
+	if sp.stream == "" {
+		sp.stream = "c16-wrapper"
+	}
+	h := &wHist{Stream: sp.stream, HeldFor: sp.holdFor.String(), Index: idx, Svc: sp.svc, Class: sp.class, Probe: sp.probe, Outcomes: map[string]string{}, hold: make(chan struct{})}
 	for _, g := range sp.groups {
 		h.Outcomes[g.m.name+"|"+g.m.subjectOf(g.arg)] = g.outcome
 	}
@@ -1545,10 +1631,15 @@ func runWrapper(sp wSpec, r *rand.Rand, idx int) (*wHist, bool) {
 		for _, c := range first[1:] {
 			want[c.gid] = true
 		}
-		got := waitParked(want, 20*time.Millisecond)
+		max := 20 * time.Millisecond
+		if sp.holdFor > 0 {
+			max = 100 * time.Millisecond
+		}
+		got := waitParked(want, max)
 		for _, c := range first[1:] {
 			c.Parked = got[c.gid]
 		}
+		time.Sleep(sp.holdFor)
 	} else {
 		for i := 0; i < sp.yields; i++ {
 			runtime.Gosched()
@@ -2000,6 +2091,87 @@ func runE2E(rep *vh.Report, ps *sut.ProxyStack, r *rand.Rand, idx int) {
 	}
 }
 
+func recordWrapper(rep *vh.Report, h *wHist, i int, prefix string) {
+	fs, st := judgeWrapper(h)
+	rep.Eval()
+	rep.Distinct(h.HeldFor + "|" + st.desc)
+	rep.Count(prefix+"_scenarios", 1)
+	rep.Count(prefix+"_scenarios_"+h.Class, 1)
+	rep.Count(prefix+"_calls", len(h.Calls))
+	rep.Count(prefix+"_inner_executions", len(h.Execs))
+	rep.Count(prefix+"_latecomer_fresh_executions", st.fresh)
+	rep.Count(prefix+"_callers_confirmed_joined_by_goroutine_dump", st.parked)
+	for k, v := range st.merged {
+		rep.Count(prefix+"_merged "+k, v)
+		rep.Count(prefix+"_merged_calls", v)
+	}
+	if i%41 == 0 {
+		rep.Sample(h)
+	}
+	for _, f := range fs {
+		rep.Violate(h.Stream, i, f.sig, f.what, h)
+	}
+}
+
+var slowHolds = []time.Duration{1000 * time.Millisecond, 2500 * time.Millisecond, 4 * time.Second, 6 * time.Second}
+
+// runSlowSlice runs all slow-leader cases IN PARALLEL (the wall cost is one hold, not the sum).
+func runSlowSlice(rep *vh.Report, env vh.Env) {
+	var wg sync.WaitGroup
+	if only, skip := env.Only("c16-slow-generic"); !skip {
+		n := len(slowHolds) * env.Pick(6, 24)
+		for i := 0; i < n; i++ {
+			if only >= 0 && only != i {
+				continue
+			}
+			wg.Add(1)
+			go func(i int) {
+				defer wg.Done()
+				r := vh.CaseRNG(env.Seed, "c16-slow-generic", i)
+				hold := slowHolds[i%len(slowHolds)]
+				var h *gHist
+				if withWatchdogFor(rep, "slow-leader generic history (a caller never returned)", 40*time.Second, func() { h = runSlowGeneric(r, i, hold) }) {
+					recordGeneric(rep, h, 1<<30)
+					rep.Count("slow_leader_generic_histories_hold_"+hold.String(), 1)
+				}
+			}(i)
+		}
+	}
+	if only, skip := env.Only("c16-slow-wrapper"); !skip {
+		reps := env.Pick(1, 4)
+		i := 0
+		for rp := 0; rp < reps; rp++ {
+			for _, hold := range slowHolds {
+				for _, m := range methods {
+					idx, m, hold := i, m, hold
+					i++
+					if only >= 0 && only != idx {
+						continue
+					}
+					wg.Add(1)
+					go func() {
+						defer wg.Done()
+						r := vh.CaseRNG(env.Seed, "c16-slow-wrapper", idx)
+						sp := buildSpec(wCase{m: m, class: "same-subject", outcome: m.outcomes[0]}, r, idx)
+						sp.stream, sp.holdFor, sp.late = "c16-slow-wrapper", hold, 1
+						if sp.groups[0].followers > 3 {
+							sp.groups[0].followers = 1 + sp.groups[0].followers%3
+						}
+						h, ok := runWrapper(sp, r, idx)
+						if !ok {
+							rep.Inconclusive("watchdog: slow-leader wrapper scenario stalled (a caller never returned)")
+							return
+						}
+						recordWrapper(rep, h, idx, "slow_leader_wrapper")
+						rep.Count("slow_leader_wrapper_scenarios_hold_"+hold.String(), 1)
+					}()
+				}
+			}
+		}
+	}
+	wg.Wait()
+}
+
 // =====================================================================================
 
 func TestProp(t *testing.T) {
@@ -2015,6 +2187,14 @@ func TestProp(t *testing.T) {
 
 	replaying := env.Replay != ""
 	t0 := time.Now()
+
+	// ---- slow-leader slice: runs in the background, concurrently with everything below
+	slowDone := make(chan struct{})
+	go func() {
+		defer close(slowDone)
+		runSlowSlice(rep, env)
+		rep.Extra("wall_slow_leader_slice_s", time.Since(t0).Seconds())
+	}()
 
 	// ---- (A) steered
 	if only, skip := env.Only("c16-steered"); !skip {
@@ -2086,25 +2266,7 @@ func TestProp(t *testing.T) {
 				rep.Inconclusive("watchdog: wrapper scenario stalled")
 				return
 			}
-			fs, st := judgeWrapper(h)
-			rep.Eval()
-			rep.Distinct(st.desc)
-			rep.Count("wrapper_scenarios", 1)
-			rep.Count("wrapper_scenarios_"+h.Class, 1)
-			rep.Count("wrapper_calls", len(h.Calls))
-			rep.Count("wrapper_inner_executions", len(h.Execs))
-			rep.Count("wrapper_latecomer_fresh_executions", st.fresh)
-			rep.Count("wrapper_callers_confirmed_joined_by_goroutine_dump", st.parked)
-			for k, v := range st.merged {
-				rep.Count("wrapper_merged "+k, v)
-				rep.Count("wrapper_merged_calls", v)
-			}
-			if i%41 == 0 {
-				rep.Sample(h)
-			}
-			for _, f := range fs {
-				rep.Violate(h.Stream, i, f.sig, f.what, h)
-			}
+			recordWrapper(rep, h, i, "wrapper")
 		})
 	}
 	rep.Extra("wall_generic_and_wrappers_s", time.Since(t0).Seconds())
@@ -2125,6 +2287,7 @@ func TestProp(t *testing.T) {
 			ps.Close()
 		}
 	}
+	<-slowDone
 	rep.Extra("wall_total_s", time.Since(t0).Seconds())
 
 	if !replaying {
@@ -2139,6 +2302,10 @@ func TestProp(t *testing.T) {
 		rep.Floor("wrapper_latecomer_fresh_executions", env.Pick(5, 100))
 		rep.Floor("e2e_merged_requests", env.Pick(10, 100))
 		rep.Floor("e2e_served", env.Pick(20, 200))
+		rep.Floor("generic_slow-leader_merged_calls", env.Pick(20, 80))
+		rep.Floor("generic_slow-leader_fresh_after_completion", env.Pick(10, 40))
+		rep.Floor("slow_leader_wrapper_merged_calls", env.Pick(16, 64))
+		rep.Floor("slow_leader_wrapper_latecomer_fresh_executions", env.Pick(16, 64))
 	}
 	if st := rep.Finish(); st == "violated" {
 		t.Fatalf("C16 violated")
